@@ -126,11 +126,13 @@ def main(argv=None):
     reach = Counter()
     functions = set()
     undecided = 0
+    noise_ok = 0
     viol = defaultdict(list)
     samples = []
     for p in paths:
         stats.add(p["stats"])
         undecided += p["undecided"]
+        noise_ok += p.get("noise_ok", 0)
         functions.update(p["functions"])
         if p["aborted"]:
             aborted[p["aborted"].split(":")[0]] += 1
@@ -273,6 +275,7 @@ def main(argv=None):
             "solver_results": {"sat": stats.sat, "unsat": stats.unsat, "unknown": stats.unknown},
             "decision_cache_hits": stats.cache_hits,
             "undecided": n_undec,
+            "equalities_holding_up_to_1e-9_relative_only": noise_ok,
             "paths_aborted": dict(aborted),
             "validation": dict(validation),
             "functions_encoded": sorted(functions),
